@@ -531,7 +531,7 @@ fn minimise(
     let t0 = Instant::now();
     let mut replays = 0u32;
     let mut best = trace;
-    let budget = |replays: u32| replays < 1500 && t0.elapsed().as_secs() < 60;
+    let budget = |replays: u32| replays < 6000 && t0.elapsed().as_secs() < 90;
     let mut try_ = |cand: &Vec<u32>, replays: &mut u32| -> Option<RunReport> {
         *replays += 1;
         match one_run(spec, tier, rs, Some(cand.clone())) {
@@ -550,68 +550,116 @@ fn minimise(
     // the run may not have consumed the whole trace
     best.truncate(best_rep.trace.len());
 
-    // 1. truncate the suffix (exhausted trace reads as zeros)
-    let mut lo = 0usize;
-    let mut hi = best.len();
-    while lo < hi && budget(replays) {
-        let mid = (lo + hi) / 2;
-        let cand = best[..mid].to_vec();
-        if let Some(r) = try_(&cand, &mut replays) {
-            best = cand;
-            best_rep = r;
-            hi = mid;
-        } else {
-            lo = mid + 1;
+    // Passes repeat until a whole round makes no progress (or the budget is
+    // spent).  Value 0 is the simplest alternative at every choice site and an
+    // exhausted trace reads as zeros, so truncating, zeroing, deleting and
+    // lowering all move towards simpler workloads, schedules and faults.
+    loop {
+        let before = (best.len(), best.iter().map(|v| *v as u64).sum::<u64>());
+        // 0. delete whole list elements (an operation of the history, a
+        // function of the pool, a primitive of the shape): remove the span's
+        // values and decrement the drawn list length, largest spans first
+        // (one sweep from the end of the trace to its beginning, so that the
+        // indices of the spans still to be tried stay valid)
+        let mut tried: std::collections::BTreeSet<(usize, usize)> =
+            std::collections::BTreeSet::new();
+        loop {
+            let mut spans = best_rep.spans.clone();
+            spans.retain(|(s0, e0, c)| {
+                *e0 <= best.len()
+                    && *c < *s0
+                    && best[*c] > 0
+                    && !tried.contains(&(*s0, *e0 - *s0))
+            });
+            // last start first; among equal starts the enclosing span first
+            let Some((s0, e0, c)) = spans
+                .into_iter()
+                .max_by_key(|(s0, e0, _)| (*s0, e0 - s0))
+            else {
+                break;
+            };
+            if !budget(replays) {
+                break;
+            }
+            tried.insert((s0, e0 - s0));
+            let mut cand = best.clone();
+            cand[c] -= 1;
+            cand.drain(s0..e0);
+            if let Some(r) = try_(&cand, &mut replays) {
+                best = cand;
+                best_rep = r;
+            }
         }
-    }
-    // 2. zero blocks, halving the block size
-    let mut block = best.len().max(1).next_power_of_two() / 2;
-    while block >= 1 && budget(replays) {
-        let mut start = 0;
-        while start < best.len() && budget(replays) {
-            let end = (start + block).min(best.len());
-            if best[start..end].iter().any(|x| *x != 0) {
+        // 1. truncate the suffix (binary search for the shortest prefix)
+        let mut lo = 0usize;
+        let mut hi = best.len();
+        while lo < hi && budget(replays) {
+            let mid = (lo + hi) / 2;
+            let cand = best[..mid].to_vec();
+            if let Some(r) = try_(&cand, &mut replays) {
+                best = cand;
+                best_rep = r;
+                hi = mid;
+            } else {
+                lo = mid + 1;
+            }
+        }
+        // 2. delete blocks, then zero blocks, halving the block size
+        let mut block = best.len().max(1).next_power_of_two() / 2;
+        while block >= 1 && budget(replays) {
+            let mut start = 0;
+            while start < best.len() && budget(replays) {
+                let end = (start + block).min(best.len());
                 let mut cand = best.clone();
-                for x in &mut cand[start..end] {
-                    *x = 0;
+                cand.drain(start..end);
+                if let Some(r) = try_(&cand, &mut replays) {
+                    best = cand;
+                    best_rep = r;
+                    continue; // same start, next block slid into place
                 }
+                if best[start..end].iter().any(|x| *x != 0) {
+                    let mut cand = best.clone();
+                    for x in &mut cand[start..end] {
+                        *x = 0;
+                    }
+                    if let Some(r) = try_(&cand, &mut replays) {
+                        best = cand;
+                        best_rep = r;
+                    }
+                }
+                start = end;
+            }
+            block /= 2;
+        }
+        // 3. lower single values (towards 0 by halving, then by one)
+        for i in 0..best.len() {
+            if !budget(replays) {
+                break;
+            }
+            let mut v0 = best[i];
+            while v0 > 0 && budget(replays) {
+                let mut cand = best.clone();
+                cand[i] = v0 / 2;
+                if let Some(r) = try_(&cand, &mut replays) {
+                    best = cand;
+                    best_rep = r;
+                    v0 /= 2;
+                } else {
+                    break;
+                }
+            }
+            if v0 > 1 && budget(replays) {
+                let mut cand = best.clone();
+                cand[i] = v0 - 1;
                 if let Some(r) = try_(&cand, &mut replays) {
                     best = cand;
                     best_rep = r;
                 }
             }
-            start = end;
         }
-        block /= 2;
-    }
-    // 3. delete single values (shifts the rest left)
-    let mut i = 0;
-    while i < best.len() && budget(replays) {
-        let mut cand = best.clone();
-        cand.remove(i);
-        if let Some(r) = try_(&cand, &mut replays) {
-            best = cand;
-            best_rep = r;
-        } else {
-            i += 1;
-        }
-    }
-    // 4. lower single values
-    for i in 0..best.len() {
-        if !budget(replays) {
+        let after = (best.len(), best.iter().map(|v| *v as u64).sum::<u64>());
+        if after >= before || !budget(replays) {
             break;
-        }
-        let mut v0 = best[i];
-        while v0 > 0 && budget(replays) {
-            let mut cand = best.clone();
-            cand[i] = v0 / 2;
-            if let Some(r) = try_(&cand, &mut replays) {
-                best = cand;
-                best_rep = r;
-                v0 /= 2;
-            } else {
-                break;
-            }
         }
     }
     while best.last() == Some(&0) {
